@@ -14,7 +14,14 @@ fail (for everything = no network, or for some packages = no such version) from 
 the history on and recover later; the history goes on after a run that failed for that reason.  The integration
 is configured through configuration.yaml (config entry with source "import") or, in about a third of the
 scenarios, through the UI (source "user"; yaml may then still carry free-form keys and - ignored - the three
-settings).  Between runs the configuration changes through the entry point that belongs to it: the REAL options
+settings).  In 3 of 10 histories the operations prefer the next step in the ownership history of a package (pyscript
+installs it - the host changes it - a run sees that - the host happens to install the version pyscript had
+installed - the user pins another version).  About one run in five is an OVERLAP GROUP instead: two or three
+``pyscript.reload`` / direct calls issued while the earlier ones may still be suspended - in the glob job (executor
+latency of the group) or in the installer (a session that has something to install takes a seeded virtual time
+before and after the packages appear) - with edits of the requirement files before and between them; per group the
+installer runs one session at a time (Home Assistant's pip lock) or the sessions run side by side.  Between runs
+the configuration changes through the entry point that belongs to it: the REAL options
 dialog (``PyscriptOptionsConfigFlow``: ``allow_all_imports``, ``hass_is_global``, ``legacy_decorators`` flipped, or
 the dialog confirmed without a change; for a yaml entry the dialog only says that there is no UI configuration),
 the three settings in yaml, and a free-form yaml key that comes and goes (both re-read by the REAL import flow at
@@ -36,7 +43,12 @@ may only change inside a run of ``install_requirements`` (nothing is installed o
 worlds that differ only in which file holds which content, the order of lines within the files and the
 listing permutations - resolved table, installer calls and record must be identical after every run;
 (2) in world A the real ``process_all_requirements`` is swept over all (small sets) or a seeded sample of
-file/line orderings of the same multiset.
+file/line orderings of the same multiset.  Runs that really overlapped (one began while another was in progress)
+had neither the installed packages nor the record for themselves: for them only what each resolved, whether it
+was allowed to install and what it asked the installer for are judged per run; ownership and the record are
+judged for the whole cluster at the quiescent point after its last run has ended (conservation: every package the
+installer installed for pyscript is in the record with the installed version, nothing else is claimed, nothing the
+host owned was changed) - nothing but pyscript touches the packages in between.
 """
 
 from __future__ import annotations
@@ -74,6 +86,13 @@ RULE = (
     "entry (source user, with or without the three settings also in yaml) and allow_all_imports / hass_is_global "
     "/ legacy_decorators are changed through the real options dialog, else through yaml + import flow; a "
     "free-form yaml key is added / changed / removed; the options dialog is opened and confirmed unchanged); "
+    "15 % of the host installs ask for the version pyscript installed last (carried out if a completed run has seen "
+    "the package at another version since); in 30 % of the histories ('steer') 70 % of the operations are the next "
+    "step of a package's ownership history (own -> changed by the host -> seen by a run -> host installs the version "
+    "pyscript had installed -> another version is pinned) and there are 2-4 further runs; 20 % of the runs are "
+    "overlap groups: 2-3 reload / direct calls started 0-2.5 s apart, installer sessions that take 0-1.5 s before and "
+    "0-1.5 s after the packages appear, executor latency of the group 0 / <=30 / 50-400 / 200-1500 ms, file edits "
+    "before (50 %) and between (65 %) the calls, installer sessions serialised (60 %) or side by side; "
     "every scenario is executed in two worlds "
     "with different file/line/listing orders and, in world A, the resolver is swept over all (<=24/48) or a sample "
     "of orderings of the same multiset; distinct = scenario digest; non-trivial = an allowed run with >=1 "
@@ -102,6 +121,23 @@ ASSUMPTIONS = [
     "prior record), so 'installed by something other than pyscript' is observable through installed version vs. "
     "a truthful record; an external re-install of the very version pyscript installed is indistinguishable for "
     "any implementation and is not generated",
+    "the host may also install the very version pyscript installed last, but only after a run of "
+    "install_requirements that was allowed to install, did not raise, did not overlap with another run and had the "
+    "package among its requirements has completed while the host's other version was installed: from then on "
+    "pyscript had the opportunity to notice that the package is not its own any more, and 'a package already "
+    "installed by something other than pyscript is never reinstalled or changed' applies whatever version the host "
+    "installs later (the stale record entry itself stays don't-care, see below)",
+    "overlapping runs of install_requirements (a pyscript.reload or a direct call while an earlier one is suspended "
+    "in the glob job or in the installer; Home Assistant does not serialise service calls) are judged as a whole at "
+    "the quiescent point after the last of them has ended: no external change and no configuration change happens "
+    "inside an overlap group, only edits of the requirement files; which of the overlapping runs installs what, "
+    "whether a run re-installs / updates / leaves alone a package that another run is installing, and the final "
+    "installed versions are don't-care; the record clause and 'nothing the host owns is changed' are not",
+    "in an overlap group an installer session that has something to install takes the virtual time the scenario "
+    "gives (the packages appear after 'pre', the call returns after 'post'); a call with nothing to install "
+    "returns at once; with 'serial' the sessions queue behind one lock and re-check what is missing when they get "
+    "it (homeassistant.requirements.RequirementsManager.pip_lock), without it they run side by side and the "
+    "session that installs last wins",
     "the prior record seeded into the config entry is always a state pyscript could have left: version == installed "
     "version for packages it still owns, or a stale version for packages changed/removed externally since",
     "a stale record entry for a package that was changed or removed externally is don't-care (pyscript is only "
@@ -147,7 +183,8 @@ REACH_PROBES = [
     "same_pkg_in_two_files", "listing_order_changed_visit_order", "foreign_package_present",
     "pin_changed_between_runs", "unpinned_only", "pin_and_unpinned_same_pkg", "own_package_pin_differs",
     "own_package_pin_same", "own_package_unpinned", "external_upgrade_of_own", "external_removal_of_own",
-    "allow_false_with_requirements", "allow_toggled", "unsupported_specifier_line", "nonpep440_pin",
+    "allow_false_with_requirements", "allow_false_own_package_pin_differs", "allow_toggled",
+    "unsupported_specifier_line", "nonpep440_pin",
     "malformed_line", "comment_hides_higher_pin", "equal_versions_different_spelling",
     "numeric_vs_lexical_order", "prerelease_or_post_pin", "unpinned_installed_from_index",
     "entry_unload_setup", "direct_call", "reload_run", "sweep_exhaustive", "sweep_sampled",
@@ -159,6 +196,12 @@ REACH_PROBES = [
     "ui_configured_entry", "ui_entry_with_settings_in_yaml", "options_dialog_changed_setting",
     "options_dialog_without_change", "option_changed_with_nonempty_record", "options_dialog_refused_for_yaml_entry",
     "other_setting_changed", "yaml_extra_key_changed", "run_after_config_change",
+    "host_restores_version_pyscript_installed", "foreign_package_at_version_pyscript_installed",
+    "foreign_package_at_version_pyscript_installed_pin_differs",
+    "overlap_group", "overlap_installer_serialised", "overlap_installer_concurrent", "overlap_runs_really_overlapped",
+    "overlap_run_began_during_another", "overlap_run_began_while_installer_busy",
+    "overlap_run_began_during_executor_job", "overlap_files_edited_during_a_run", "overlap_installer_session_waited",
+    "overlap_two_installer_sessions_at_once", "overlap_cluster_changed_record", "overlap_cluster_installed_package",
 ]
 SHRINK_LISTS = [["ops"], ["spec", "files"], ["spec", "files", "*", "lines"], ["ops", "*", "runs"]]
 
@@ -757,7 +800,8 @@ def simplify(scn: dict):
             for ln in ent["lines"]:
                 used.update(p for p in spec["pkgs"] if p in ln)
         for op in scn["ops"]:
-            for ln in op.get("lines", []):
+            for ln in list(op.get("lines", [])) + [ln for r in op.get("runs", []) for ed in r.get("edits") or []
+                                                    for ln in ed.get("lines", [])]:
                 used.update(p for p in spec["pkgs"] if p in ln)
             if op.get("pkg"):
                 used.add(op["pkg"])
@@ -910,6 +954,7 @@ class PkgSim:
         self.cluster: dict | None = None
         self.pip_lock: asyncio.Lock | None = None  # Home Assistant's pip lock (overlap groups with "serial")
         self.pip_sessions = 0  # installer sessions in progress
+        self.entry_of: dict = {}  # run number -> the config entry it was called with
         self.seen_foreign: set = set()  # packages a completed run has seen at a version pyscript did not install
         self.world: "ReqWorld" | None = None
         self.model: dict[str, list[str]] = files_model(scn)
@@ -1019,6 +1064,7 @@ class PkgSim:
             raise HarnessError("installer called outside install_requirements")
         cur["calls"].append(reqs)
         cur["caller"] = name
+        cur["allow_at_call"].append(bool(self.entry_of[cur["k"]].data.get(CONF_ALLOW, False)))
         call = _CALL.get()
         cur["in_pip"] = True
         try:
@@ -1119,6 +1165,7 @@ class PkgSim:
             "files": {p: list(v) for p, v in sorted(self.model.items())},
             "disk": {p: list(v) for p, v in sorted(variant_files(self.model, self.order).items())},
             "calls": [],
+            "allow_at_call": [],
             "unparsable": [],
             "pip": copy.deepcopy(self.pip),
             "pip_failed": [],
@@ -1131,8 +1178,10 @@ class PkgSim:
             w.probe("overlap_run_began_during_another")
             if any(r.get("in_pip") for r in self.active):
                 w.probe("overlap_run_began_while_installer_busy")
-            elif any(r["resolved"] is None for r in self.active):
-                w.probe("overlap_run_began_during_glob_job")
+            elif any(r.get("t_read") is not None and not r["calls"] for r in self.active):
+                # the files are read, nothing was asked of the installer yet and the run has not ended: it is
+                # waiting for the executor (the glob job; with nothing to install: the look-up of unpinned versions)
+                w.probe("overlap_run_began_during_executor_job")
             rec["overlapped"] = True
             for other in self.active:
                 other["overlapped"] = True
@@ -1143,6 +1192,7 @@ class PkgSim:
                             "last_py_before": rec["last_py_before"]}
         self.active.append(rec)
         self.runs.append(rec)
+        self.entry_of[rec["k"]] = entry
         if group is not None:
             group["runs"].append(rec["k"])
         return rec
@@ -1739,6 +1789,11 @@ def judge_run(rec: dict, ref: dict, universe: list[str], tainted: set, probe, op
     # it resolved, whether it was allowed to install and what it asked the installer for are judged here, who
     # owns what and the record are judged for the group as a whole (judge_group)
     exclusive = not rec.get("overlapped")
+    # the setting as the run found it; a run that overlapped with a reload may have begun before that reload
+    # re-read the configuration: then what counts is the setting at the moment(s) it called the installer
+    allow = rec["allow"]
+    if not exclusive and rec.get("allow_at_call"):
+        allow = all(rec["allow_at_call"])
     pip_failed = list(rec.get("pip_failed") or [])
     failed_pkgs = {_split_req(r)[0] for r in pip_failed}
     if pip_failed:
@@ -1767,14 +1822,19 @@ def judge_run(rec: dict, ref: dict, universe: list[str], tainted: set, probe, op
     flat = [r for call in rec["calls"] for r in call]
     before = rec["table_before"]
     # ---- installer calls
-    if not rec["allow"]:
+    if not allow:
         if sel or ref["open"]:
             probe("allow_false_with_requirements")
+        for name, exp in sel.items():
+            have = before.get(name)
+            if exclusive and name not in ref["open"] and name not in tainted and have is not None \
+                    and have[1] == "pyscript" and exp["pinned"] and not same_version(have[0], exp["v"]):
+                probe("allow_false_own_package_pin_differs")
         if flat:
             out.append({"class": "C20.installed_when_not_allowed", "sig": {},
                         "detail": f"{where}: allow_all_imports is false but the installer was called with {flat}",
                         "t": t})
-    if rec.get("allow_expected") is False and rec["allow"] and flat:
+    if rec.get("allow_expected") is False and allow and flat:
         # UI entry: the user's setting is off, yet the run found it on (docs: the yaml values are ignored then)
         out.append({"class": "C20.installed_when_not_allowed", "sig": {"ui_setting": "not_in_effect"},
                     "detail": f"{where}: allow_all_imports is off in the UI (the entry was configured there) but the "
@@ -1787,7 +1847,7 @@ def judge_run(rec: dict, ref: dict, universe: list[str], tainted: set, probe, op
             continue
         if name in sel:
             exp = sel[name]
-            if not rec["allow"]:
+            if not allow:
                 continue
             if exp["pinned"] and not (ver is not None and same_version(ver, exp["v"])):
                 out.append({"class": "C20.wrong_version", "sig": {"form": form_of(ref, name), "kind": "installer_arg"},
@@ -1827,11 +1887,11 @@ def judge_run(rec: dict, ref: dict, universe: list[str], tainted: set, probe, op
                 rec.setdefault("pip_tainted", set()).add(cls["name"])
         elif cls is not None:
             continue
-        elif rec["allow"]:
+        elif allow:
             out.append({"class": "C20.unrequested_install", "sig": {},
                         "detail": f"{where}: installer called with {req!r}, which no requirement line asks for",
                         "t": t})
-    if rec["allow"] and not rec["exc"] and exclusive:
+    if allow and not rec["exc"] and exclusive:
         for name in sorted(sel):
             if name in ref["open"] or name in tainted:
                 continue
@@ -1906,7 +1966,8 @@ def judge_record(rec: dict, ref: dict, universe: list[str], tainted: set, probe,
             # pyscript installed this package in this run while the installation of another one failed, and its
             # record does not say so (no entry, or the stale entry of an earlier session): one signature; what it
             # does with the package in later runs is a consequence and not judged again
-            out.append({"class": "C20.record_mismatch", "sig": {"kind": "installed_but_not_recorded", **sig_x, **sig_all},
+            out.append({"class": "C20.record_mismatch",
+                        "sig": {"kind": "installed_but_not_recorded", **sig_x, **sig_all},
                         "detail": f"{where}: pyscript installed {name!r} {rec['installed'][name]} in this run but "
                                   f"the record after the run is {rec_after}{note}", "t": rec["t_end"]})
             tainted.add(name)
@@ -1920,18 +1981,21 @@ def judge_record(rec: dict, ref: dict, universe: list[str], tainted: set, probe,
                     note += f" [record before the run: {name!r}: {prev!r}]"
                     probe("record_spelling_differs_from_installed")
                     tainted.add(name)
-                out.append({"class": "C20.record_mismatch", "sig": {"kind": "missing", "unpinned": unp, **sig_x, **sig_all},
+                out.append({"class": "C20.record_mismatch",
+                            "sig": {"kind": "missing", "unpinned": unp, **sig_x, **sig_all},
                             "detail": f"{where}: pyscript installed {name!r} {have[0]} (this run: "
                                       f"{name in rec['installed']}) but the record after the run is {rec_after}{note}",
                             "t": rec["t_end"]})
             elif not same_version(got, have[0]):
-                out.append({"class": "C20.record_mismatch", "sig": {"kind": "wrong_version", "unpinned": unp, **sig_x, **sig_all},
+                out.append({"class": "C20.record_mismatch",
+                            "sig": {"kind": "wrong_version", "unpinned": unp, **sig_x, **sig_all},
                             "detail": f"{where}: pyscript installed {name!r} {have[0]} but records {got!r}{note}",
                             "t": rec["t_end"]})
         elif got is not None:
             last = rec["last_py_before"].get(name)
             if name not in rec["record_before"]:
-                out.append({"class": "C20.record_mismatch", "sig": {"kind": "invented", "unpinned": unp, **sig_x, **sig_all},
+                out.append({"class": "C20.record_mismatch",
+                            "sig": {"kind": "invented", "unpinned": unp, **sig_x, **sig_all},
                             "detail": f"{where}: {name!r} (installed: {have}) is not pyscript's, yet it appears in the "
                                       f"record as {got!r}{note}", "t": rec["t_end"]})
             elif last is None or not same_version(got, last):
@@ -1969,6 +2033,10 @@ def judge_group(grp: dict, runs: list[dict], universe: list[str], tainted: set, 
     where = f"overlapping runs {grp['runs']} ({mode}; {story}), at the quiescent point after them"
     sig_all = {"overlap": True}
     out = []
+    if installed:
+        probe("overlap_cluster_installed_package")
+    if grp["record_after"] != grp["record_before"]:
+        probe("overlap_cluster_changed_record")
     for name in sorted(installed):
         had = grp["table_before"].get(name)
         if name in tainted or name not in universe or had is None or had[1] != "host":
